@@ -213,7 +213,7 @@ class C15(Property):
                     for idx in node_iter(shape)]
         else:
             vals = [rng.randint(-2000, 2000) / 64.0 for _ in node_iter(shape)]
-        extrap = rng.random() < 0.3
+        extrap = force['extrapolate'] if 'extrapolate' in force else rng.random() < 0.3
         api = force.get('api') or ('mmsc' if rng.random() < 0.25 else 'interpnd')
         nb = rng.choice([1, 1, 2, 3])
         if api == 'mmsc':
@@ -225,10 +225,33 @@ class C15(Property):
                     and rng.random() < 0.9:
                 # most sequences avoid the (known) vectorized -> single-point state corruption
                 sizes.sort()
+        walk = force.get('walk')
+        if walk:
+            sizes = [1] * len(walk)
         batches = []
-        for sz in sizes:
+        for bi, sz in enumerate(sizes):
             mode = rng.choice(['in', 'in', 'in', 'in', 'in', 'node', 'edge', 'out'])
             pts = []
+            if walk:
+                # single-point calls on one interpolator object that visit the outside of the table
+                # and the adjacent end cells (per-cell coefficient caches must not mix them up)
+                pt = []
+                for g in grids:
+                    m = walk[bi]
+                    if m == 'above':
+                        pt.append(g[-1] + rng.choice(MARGINS))
+                    elif m == 'below':
+                        pt.append(g[0] - rng.choice(MARGINS))
+                    elif m == 'last':
+                        pt.append(g[-2] + rng.choice(FRACS) * (g[-1] - g[-2]))
+                    elif m == 'first':
+                        pt.append(g[0] + rng.choice(FRACS) * (g[1] - g[0]))
+                    elif m == 'hi':
+                        pt.append(g[-1])
+                    else:
+                        pt.append(g[0])
+                batches.append([rats(pt)])
+                continue
             for _ in range(sz):
                 pt = []
                 for g in grids:
@@ -268,6 +291,13 @@ class C15(Property):
             # 4-point akima tables (general vs fixed differ in the middle interval)
             for m in ('akima', '1D-akima'):
                 yield self.gen_case(rng, {'method': m, 'ndim': 1, 'npts': 4, 'table': 'random'})
+            # single-point walks across the table ends with extrapolation on (coefficient caches)
+            for m in FIXED[1] + FIXED[2] + FIXED[3] + ['akima', 'cubic', 'slinear']:
+                walk = ['above', 'last', 'hi', 'below', 'first', 'lo']
+                rng.shuffle(walk)
+                yield self.gen_case(rng, {'method': m, 'ndim': int(m[0]) if is_fixed(m) else 1,
+                                          'api': 'interpnd', 'extrapolate': True, 'walk': walk,
+                                          'table': 'random'})
             # vectorized call followed by a single-point call on a fixed-dimension table
             m = rng.choice(FIXED[1] + FIXED[2] + FIXED[3])
             yield self.gen_case(rng, {'method': m, 'ndim': int(m[0]), 'api': 'interpnd',
